@@ -21,7 +21,7 @@ def replay(ctx, binary, behs, cfg, label):
 
 
 def run(ctx):
-    binary = vlib.go_build("voteset")
+    binary = vlib.go_build("voteset", ctx)
     case = ctx.replay_case()
     if case:
         power = ",".join(str(x) for x in case["power"])
